@@ -42,6 +42,7 @@ fn op_strat(which: Which) -> impl Strategy<Value = Op> {
         1 => (0usize..3, 0usize..9000, 1u8..=255).prop_map(|(r, p, v)| Op::Write(r, p, v)),
         2 => (0usize..3).prop_map(Op::Drop),
         hl => (0usize..10).prop_map(Op::HighLevel),
+        2 => (0usize..4, 0usize..6).prop_map(|(s, l)| Op::Deserialize(s, l)),
     ]
 }
 
@@ -97,12 +98,21 @@ pub fn eval_history(which: Which, h: &History, ev: &mut Evidence) -> Result<(), 
         Which::C15 => vec![Mode::C15],
         Which::C19 => {
             // fault-free run counts the lock calls; then one run per k
-            let n = match run_in_child(h, Mode::C19 { refuse_from: 0 }) {
+            let n = match run_in_child(h, Mode::C19 { refuse_from: 0, errno: 0 }) {
                 Outcome::Pass(st) => st.mlock_calls,
                 Outcome::Fail(m) => return Err(format!("[no fault injected] {m}")),
                 Outcome::Inconclusive(m) => return Err(format!("INCONCLUSIVE {m}")),
             };
-            (1..=n.min(12) as i64 + 1).map(|k| Mode::C19 { refuse_from: k }).collect()
+            // every k with ENOMEM; the other errno values mlock(2) documents at the first and the last lock call
+            let last = n.min(12) as i64;
+            let mut v: Vec<Mode> = (1..=last + 1).map(|k| Mode::C19 { refuse_from: k, errno: libc::ENOMEM }).collect();
+            for e in [libc::EAGAIN, libc::EPERM] {
+                v.push(Mode::C19 { refuse_from: 1, errno: e });
+                if last > 1 {
+                    v.push(Mode::C19 { refuse_from: last, errno: e });
+                }
+            }
+            v
         }
     };
     for mode in modes {
@@ -116,7 +126,7 @@ pub fn eval_history(which: Which, h: &History, ev: &mut Evidence) -> Result<(), 
                 ev.class_n("fault-probes", st.probes);
                 ev.class_n("releases-observed", st.releases);
                 ev.class_n("transitions-that-returned-Err", st.err_transitions);
-                if let Mode::C19 { refuse_from } = mode {
+                if let Mode::C19 { refuse_from, .. } = mode {
                     if st.mlock_refused == 0 {
                         ev.class("plan-beyond-history(trivial)");
                     } else {
@@ -127,7 +137,7 @@ pub fn eval_history(which: Which, h: &History, ev: &mut Evidence) -> Result<(), 
                     ev.nontrivial(fnv64(&[serde_json::to_string(h).unwrap().as_bytes(), format!("{mode:?}").as_bytes()]));
                 }
             }
-            Outcome::Fail(m) => return Err(format!("{m}{}", if let Mode::C19 { refuse_from } = mode { format!(" [mlock refused from call {refuse_from}]") } else { String::new() })),
+            Outcome::Fail(m) => return Err(format!("{m}{}", if let Mode::C19 { refuse_from, errno } = mode { format!(" [mlock refused from call {refuse_from} with errno {errno}]") } else { String::new() })),
             Outcome::Inconclusive(m) => return Err(format!("INCONCLUSIVE {m}")),
         }
     }
@@ -162,6 +172,13 @@ pub fn worker(args: &[String]) -> i32 {
                     })
                     .collect();
                 det.push(History { array_len: if array { Some(len) } else { None }, ops, fill: seed ^ (pi as u64) << 8 ^ li as u64 });
+            }
+        }
+    }
+    if which == Which::C19 {
+        for sel in 0..4usize {
+            for li in 0..6usize {
+                det.push(History { array_len: None, ops: vec![Op::New { ctor: Ctor::FromSliceLocked, len_idx: 3 }, Op::Deserialize(sel, li), Op::Deserialize(sel + 1, li), Op::Drop(0)], fill: seed ^ (sel * 7 + li) as u64 });
             }
         }
     }
